@@ -137,6 +137,14 @@ class BooleanIndexFlattened(ArrayExpr):
         nblocks = reduce(mul, self.array.numblocks, 1)
         return ((np.nan,) * nblocks,)
 
+    @functools.cached_property
+    def transfer_bytes(self):
+        # Pure alias routing (each output block IS an input block, see _layer)
+        # -- schedulers resolve aliases without moving data.
+        from dask_array._expr import TransferBytes
+
+        return TransferBytes(0.0, 0.0)
+
     def _layer(self) -> dict:
         from dask.base import flatten
 
